@@ -43,6 +43,30 @@ def supporting_theorems(pid):
             "supporting_assumptions": " ".join(assumptions_of(pid + "x", "").split())[:300]}
 
 
+def coqchk(pid):
+    """thorough tier: re-check the compiled property file and everything it depends on with Coq's
+    independent checker and collect the axioms it reports (cached per state of the .vo files)"""
+    vos = sorted(glob.glob(os.path.join(COQ, "theories", "**", "*.vo"), recursive=True) +
+                 glob.glob(os.path.join(COQ, "gen", "*.vo")))
+    h = hashlib.sha256()
+    for v in vos:
+        stt = os.stat(v)
+        h.update(("%s:%d:%d;" % (v, stt.st_size, int(stt.st_mtime))).encode())
+    d = os.path.join(BUILD, "coqchk")
+    os.makedirs(d, exist_ok=True)
+    cache = os.path.join(d, "%s-%s.json" % (pid, h.hexdigest()[:16]))
+    if os.path.exists(cache):
+        return json.load(open(cache))
+    t0 = time.time()
+    rc, out, _ = run(["coqchk", "-silent", "-o", "-Q", "theories", "Strcase", "-Q", "gen", "StrcaseGen",
+                      "Strcase.Properties." + pid], cwd=COQ, timeout=3 * 3600)
+    m = re.search(r'\* Axioms:(.*?)\n\s*\n\* Constants', out, re.S)
+    res = {"rc": rc, "seconds": round(time.time() - t0), "axioms": " ".join((m.group(1) if m else "?").split()),
+           "tail": "" if rc == 0 else out[-800:]}
+    json.dump(res, open(cache, "w"))
+    return res
+
+
 def theorem_inventory(pid):
     """theorems stated in Properties/<pid>.v and the lemma count of everything it depends on"""
     vf = os.path.join(COQ, "theories", "Properties", pid + ".v")
@@ -371,6 +395,13 @@ def check_property(pid, tier, seed):
         print("VIOLATION property=%s replay=%s no-failing-input-found" % (pid, path))
         exit_code = 1
 
+    coqchk_res = None
+    if tier == "thorough" and proofs_ok:
+        coqchk_res = coqchk(pid)
+        if coqchk_res["rc"] != 0:
+            raise Infra("coqchk failed on Properties/%s: %s" % (pid, coqchk_res["tail"]))
+        if coqchk_res["axioms"] not in ("<none>",):
+            log("%s: coqchk reports axioms: %s" % (pid, coqchk_res["axioms"]))
     level = META[pid]["level"]
     assumptions_txt = assumptions_of(pid, "")
     cov = {
@@ -381,6 +412,7 @@ def check_property(pid, tier, seed):
         "theorems": inv["theorems"],
         "proofs_checked": proofs_ok,
         **supporting_theorems(pid),
+        **({"coqchk": coqchk_res} if coqchk_res else {}),
         "evaluations": stats.get("evaluations", 0),
         "distinct_nontrivial": stats.get("distinct_nontrivial", 0),
         "distinct": stats.get("distinct", 0),
